@@ -41,6 +41,8 @@ def work(item):
             _w_pexp(res, p)
         elif kind == "sexp":
             _w_sexp(res, p)
+        elif kind == "ssp":
+            _w_ssp(res, p)
         else:
             _w_ground(res, kind, p)
     except ST.Inconclusive as e:
@@ -403,6 +405,297 @@ def _w_sexp(res, p):
         res.inconc("no accepting path")
     res.sample({"symbolic-state expectation": p["label"], "paths": ex.npaths})
 
+
+# ---------------------------------------------------------------------------
+# get_sparse_operator with symbolic coefficients: a sparse matrix whose values depend on unknown coefficients is carried
+# as a LINEAR COMBINATION  sum_k v_k * S_k  of REAL scipy.sparse matrices S_k with symbolic scalars v_k.  Every structural
+# operation (kron, identity, nonzero, coo assembly, format conversion) is executed by the real scipy on the S_k - the index
+# conventions are scipy's own, not a model of them; only "scalar times matrix" is carried symbolically.
+
+
+class _Scaled:
+    """a data vector  coef * arr  (arr a real numpy array)"""
+
+    def __init__(self, coef, arr):
+        self.coef, self.arr = coef, arr
+
+    def __len__(self):
+        return len(self.arr)
+
+
+class _ScaledCat:
+    def __init__(self, segs):
+        self.segs = segs
+
+    def __len__(self):
+        return sum(len(s) for s in self.segs)
+
+
+class _LinSp:
+    def __init__(self, parts, shape):
+        self.parts, self.shape = parts, tuple(shape)
+
+    def _one(self, what):
+        if len(self.parts) != 1:
+            raise ST.Inconclusive(f"{what} of a symbolic sparse matrix with {len(self.parts)} symbolic parts is not modelled")
+        return self.parts[0]
+
+    def _map(self, f):
+        return _LinSp([(v, f(S)) for v, S in self.parts], self.shape)
+
+    def tocoo(self, copy=False):
+        return _LinSp([(v, S.tocoo(copy=copy)) for v, S in self.parts], self.shape)
+
+    def tocsc(self, copy=False):
+        return _LinSp([(v, S.tocsc(copy=copy)) for v, S in self.parts], self.shape)
+
+    def tocsr(self, copy=False):
+        return _LinSp([(v, S.tocsr(copy=copy)) for v, S in self.parts], self.shape)
+
+    def asformat(self, fmt, copy=False):
+        return _LinSp([(v, S.asformat(fmt)) for v, S in self.parts], self.shape)
+
+    def copy(self):
+        return self._map(lambda S: S.copy())
+
+    @property
+    def data(self):
+        v, S = self._one("data")
+        return _Scaled(v, S.data)
+
+    @property
+    def row(self):
+        return self._one("row")[1].row
+
+    @property
+    def col(self):
+        return self._one("col")[1].col
+
+    @property
+    def nnz(self):
+        return self._one("nnz")[1].nnz
+
+    @property
+    def dtype(self):
+        return np.dtype(complex)
+
+    def nonzero(self):
+        return self._one("nonzero()")[1].nonzero()
+
+    def eliminate_zeros(self):
+        for _, S in self.parts:
+            if hasattr(S, "eliminate_zeros"):
+                S.eliminate_zeros()
+
+    def sum_duplicates(self):
+        for _, S in self.parts:
+            if hasattr(S, "sum_duplicates"):
+                S.sum_duplicates()
+
+    def transpose(self, *a, **k):
+        return _LinSp([(v, S.transpose()) for v, S in self.parts], self.shape[::-1])
+
+    T = property(transpose)
+
+    def conj(self):
+        return _LinSp([(ST.CV.lift(v).conjugate(), S.conj()) for v, S in self.parts], self.shape)
+
+    conjugate = conj
+
+    def getH(self):
+        return self.conj().transpose()
+
+    def __mul__(self, o):
+        if ST.is_sym(o) or isinstance(o, (int, float, complex)):
+            return _LinSp([(v * o, S) for v, S in self.parts], self.shape)
+        raise ST.Inconclusive("product of a symbolic sparse matrix with a non-scalar is not modelled")
+
+    __rmul__ = __mul__
+
+    def __neg__(self):
+        return _LinSp([(-v, S) for v, S in self.parts], self.shape)
+
+    def __add__(self, o):
+        if isinstance(o, _LinSp):
+            return _LinSp(self.parts + o.parts, self.shape)
+        if isinstance(o, (int, float)) and o == 0:
+            return self
+        if hasattr(o, "tocsc"):
+            return _LinSp(self.parts + [(1.0, o)], self.shape)
+        raise ST.Inconclusive("sum of a symbolic sparse matrix with an unmodelled operand")
+
+    __radd__ = __add__
+
+    def __sub__(self, o):
+        return self + (-o if isinstance(o, _LinSp) else o * -1.0)
+
+    def dense_obj(self):
+        M = np.empty(self.shape, dtype=object)
+        for i in range(self.shape[0]):
+            for j in range(self.shape[1]):
+                M[i, j] = 0
+        for v, S in self.parts:
+            A = np.asarray(S.toarray())
+            for i, j in zip(*np.nonzero(A)):
+                e = complex(A[i, j])
+                M[i, j] = M[i, j] + v * (e.real if e.imag == 0 else e)
+        return M
+
+
+class _SparseNS:
+    def __init__(self, real):
+        self._r = real
+
+    def __getattr__(self, name):
+        return getattr(self._r, name)
+
+    def kron(self, a, b, format=None):
+        sa, sb = ST.is_sym(a), ST.is_sym(b)
+        if sa or sb:
+            s, m, left = (a, b, True) if sa else (b, a, False)
+            if isinstance(m, _LinSp):
+                return m * s
+            if bool(s == 0):  # forked: on this path the coefficient is exactly zero, scipy sees a plain 0
+                return self._r.kron(0.0, m, format) if left else self._r.kron(m, 0.0, format)
+            return _LinSp([(s, self._r.kron(1.0, m, format) if left else self._r.kron(m, 1.0, format))], self._r.kron(1.0, m, format).shape)
+        if isinstance(a, _LinSp) and isinstance(b, _LinSp):
+            parts = [(v * w, self._r.kron(S, T, format)) for v, S in a.parts for w, T in b.parts]
+            return _LinSp(parts, parts[0][1].shape)
+        if isinstance(a, _LinSp):
+            parts = [(v, self._r.kron(S, b, format)) for v, S in a.parts]
+            return _LinSp(parts, parts[0][1].shape)
+        if isinstance(b, _LinSp):
+            parts = [(w, self._r.kron(a, T, format)) for w, T in b.parts]
+            return _LinSp(parts, parts[0][1].shape)
+        return self._r.kron(a, b, format)
+
+    def _assemble(self, cls, arg, shape, kw):
+        vals, (rows, cols) = arg
+        segs = vals.segs if isinstance(vals, _ScaledCat) else [vals]
+        parts, at = [], 0
+        rows, cols = np.asarray(rows), np.asarray(cols)
+        for sg in segs:
+            k = len(sg)
+            kw2 = {x: y for x, y in kw.items() if x != "dtype"}
+            parts.append((sg.coef, cls((sg.arr, (rows[at:at + k], cols[at:at + k])), shape=shape, **kw2)))
+            at += k
+        if at != len(rows) or at != len(cols):
+            raise ValueError("row, column, and data arrays must be 1-D and of the same length")  # what scipy says
+        return _LinSp(parts, parts[0][1].shape if parts else shape)
+
+    def _ctor(self, name):
+        cls = getattr(self._r, name)
+
+        def make(arg, *a, shape=None, **kw):
+            if isinstance(arg, tuple) and len(arg) == 2 and isinstance(arg[0], (_Scaled, _ScaledCat)):
+                return self._assemble(cls, arg, shape if shape is not None else (a[0] if a else None), kw)
+            if isinstance(arg, _LinSp):
+                return arg.asformat(name[:3])
+            return cls(arg, *a, **({"shape": shape} if shape is not None else {}), **kw)
+
+        return make
+
+    @property
+    def coo_matrix(self):
+        return self._ctor("coo_matrix")
+
+    @property
+    def csc_matrix(self):
+        return self._ctor("csc_matrix")
+
+    @property
+    def csr_matrix(self):
+        return self._ctor("csr_matrix")
+
+    @property
+    def coo_array(self):
+        return self._ctor("coo_array")
+
+    @property
+    def csc_array(self):
+        return self._ctor("csc_array")
+
+
+class _ScipyProxy:
+    def __init__(self, real):
+        self._r = real
+        self.sparse = _SparseNS(real.sparse)
+
+    def __getattr__(self, name):
+        return getattr(self._r, name)
+
+
+class _NumpyCat:
+    """numpy with `concatenate` / `hstack` that keep scaled data vectors apart (segment k belongs to coefficient k)"""
+
+    def __init__(self, real):
+        self._r = real
+
+    def __getattr__(self, name):
+        return getattr(self._r, name)
+
+    def concatenate(self, seq, *a, **k):
+        seq = list(seq)
+        if any(isinstance(x, (_Scaled, _ScaledCat)) for x in seq):
+            segs = []
+            for x in seq:
+                if isinstance(x, _ScaledCat):
+                    segs += x.segs
+                elif isinstance(x, _Scaled):
+                    segs.append(x)
+                else:
+                    segs.append(_Scaled(1.0, self._r.asarray(x)))
+            return _ScaledCat(segs)
+        return self._r.concatenate(seq, *a, **k)
+
+    hstack = concatenate
+
+
+def _w_ssp(res, p):
+    """get_sparse_operator on operators whose coefficients are ALL symbolic complex numbers."""
+    import numpy
+    import scipy
+    from orquestra.quantum.operators._openfermion_utils import sparse_tools as SP
+
+    V = Vars()
+    n = p["n"]
+    res.d["cuts"].append("scipy.sparse inside get_sparse_operator: matrices that depend on a symbolic coefficient are carried as coefficient x REAL scipy matrix; kron / identity / nonzero / coo assembly / format conversion run in the real scipy; a coefficient that is exactly 0 is a forked path on which scipy receives the number 0")
+
+    def fn(ex, records):
+        A = build_operand(p["A"], V)
+        cm = PL.cmap_of(A)
+        width = A.n_qubits
+        nn = width if n is None else n
+        with ST.patched((SP, "scipy", _ScipyProxy(scipy)), (SP, "numpy", _NumpyCat(numpy))):
+            M = SP.get_sparse_operator(A, n) if n is not None else SP.get_sparse_operator(A)
+        N = 2**nn
+        if tuple(M.shape) != (N, N):
+            records.append(("sparse-shape", "violated", None))
+            return M
+        got = M.dense_obj() if isinstance(M, _LinSp) else np.asarray(M.toarray()).astype(object)
+        want = np.empty((N, N), dtype=object)
+        for i in range(N):
+            for j in range(N):
+                want[i, j] = 0
+        for k, c in cm.items():
+            P = PL.dense({k: 1.0}, nn)
+            for i, j in zip(*np.nonzero(P)):
+                e = complex(P[i, j])
+                want[i, j] = want[i, j] + c * (e.real if e.imag == 0 else e)
+        claims = []
+        for i in range(N):
+            for j in range(N):
+                d = got[i, j] - want[i, j]
+                if ST.is_sym(d):
+                    claims.append(_within(ST.CV.lift(d), 1e-9))
+                elif abs(complex(d)) > 1e-9:
+                    claims.append(z3.BoolVal(False))
+        records.append(("sparse-matrix-is-tensor-product-definition",) + ex.prove(z3.And(*claims) if claims else z3.BoolVal(True)))
+        return M
+
+    with _patched():
+        _run(res, dict(p, kind="get_sparse_operator (symbolic coefficients)", expect_exc=()), V, fn)
+
 # ---------------------------------------------------------------------------
 # ground instances
 
@@ -545,6 +838,10 @@ def instances(tier, seed):
         width = max([int(q) + 1 for t in (A[1] if A[0] == "sum" else [[A[1]]]) for q in (t[0] if A[0] == "sum" else A[1])] or [0])
         for n in [None, width, width + 1, width + 2] + ([width - 1] if width > 1 else []):
             items.append(("rev", {"A": A, "n": n, "label": f"reverse_qubit_order({name}, n={n})"}))
+        for n in [None, width, width + 1] + ([width + 2] if tier == "thorough" or width <= 2 else []):
+            if n == 0 or (width + (0 if n is None else n - width)) > 5:
+                continue
+            items.append(("ssp", {"A": A, "n": n, "label": f"get_sparse_operator({name}, n={n}) with symbolic coefficients"}))
     # ground: sparse operator vs dense tensor-product oracle
     strings = PL.all_strings(3)
     for s in strings:
@@ -702,6 +999,18 @@ def replay(data):
         def dist(a, b):
             return max([abs(complex(a.get(k, 0)) - complex(b.get(k, 0))) for k in set(a) | set(b)] or [0.0])
 
+        if clause in ("sparse-matrix-is-tensor-product-definition", "sparse-shape"):
+            from orquestra.quantum.operators._openfermion_utils.sparse_tools import get_sparse_operator
+
+            n = p.get("n")
+            nn = A.n_qubits if n is None else n
+            M = get_sparse_operator(A, n) if n is not None else get_sparse_operator(A)
+            want = PL.dense(cm, nn) if cm else np.zeros((2**nn, 2**nn))
+            got = np.asarray(M.todense())
+            if got.shape != want.shape:
+                return True, f"shape {got.shape} instead of {want.shape}"
+            d = float(np.abs(got - want).max()) if got.size else 0.0
+            return d > 1e-9, f"sparse matrix differs from the tensor-product definition by {d:.3g} (coefficients {vals})"
         if clause == "conjugate-denotes-adjoint":
             R = hermitian_conjugated(A)
             d = dist(PL.cmap_of(R), {k: v.conjugate() for k, v in _merge(A).items()})
